@@ -240,7 +240,7 @@ func run(r *eng.Runner) {
 	names, files := c04.ProgramList()
 	bound, maxS := 1, 3000
 	if !r.Quick() {
-		bound, maxS = 2, 60000
+		bound, maxS = 3, 200000
 	}
 	r.Group("exec-exec", "c05.case", fmt.Sprintf("two threads executing ONE compiled template (every C04 program, options off and TrimBlocks+LStripBlocks) with different contexts (also the failing one), every schedule up to %d preemption(s); stores into memory reachable from the template/set/package variables are scheduling points, loader I/O too", bound))
 	for i, n := range names {
@@ -254,9 +254,13 @@ func run(r *eng.Runner) {
 		}
 	}
 	if !r.Quick() {
-		r.Group("exec-exec-exec", "c05.case", "three threads executing one compiled template, preemption bound 1")
+		r.Group("exec-exec-exec", "c05.case", "three threads executing one compiled template, preemption bound 2; four threads, preemption bound 1")
 		for i, n := range names {
-			r.Do(&Case{Files: files[i], Trim: true, Ops: []string{"exec:0", "exec:1", "exec:2"}, Bound: 1, MaxSched: maxS, Label: "exec3:" + n})
+			if strings.HasSuffix(n, "-deep") {
+				continue
+			}
+			r.Do(&Case{Files: files[i], Trim: true, Ops: []string{"exec:0", "exec:1", "exec:2"}, Bound: 2, MaxSched: maxS, Label: "exec3:" + n})
+			r.Do(&Case{Files: files[i], Ops: []string{"exec:0", "exec:1", "exec:0", "execbytes:1"}, Bound: 1, MaxSched: maxS, Label: "exec4:" + n})
 		}
 	}
 	r.Group("first-use", "c05.case", "the same two-thread scenarios in a FRESH process each, explored before anything of the program was executed sequentially (lazily initialised or process-wide state is first touched under the scheduler); programs whose execution fails inside a filter, a tag or a call, and the deep macro recursions")
